@@ -234,26 +234,29 @@ Definition get_cursor_position_tracked (w : world) : world * res :=
   | Some (x, y) => (w, RPos x y)
   end.
 
+(* move_cursor after up/left have been folded into down/right *)
+Definition move_core (w : world) (vdown vright : option Z) : world :=
+  let w := if truthy vdown then
+             (if 0 <? or0 vdown then wr w (fmt_d cg_cud [or0 vdown]) else wr w (fmt_d cg_cuu [- or0 vdown]))
+           else w in
+  let w := if truthy vright then
+             (if 0 <? or0 vright then wr w (fmt_d cg_cuf [or0 vright]) else wr w (fmt_d cg_cub [- or0 vright]))
+           else w in
+  let w := if fx_marg fx && truthy vdown && w_mflag w then set_tr w None else w in
+  match w_tr w with
+  | Some (tx, ty) => set_tracked w (tx + or0 vright) (ty + or0 vdown)
+  | None => w
+  end.
+
 Definition move_cursor (w : world) (aright adown aleft aup : option Z) : world * res :=
   match (match aup with Some u => match adown with Some _ => None | None => Some (Some (- u)) end
-                     | None => Some adown end) with
+                      | None => Some adown end) with
   | None => (w, RValueError)
   | Some vdown =>
   match (match aleft with Some l => match aright with Some _ => None | None => Some (Some (- l)) end
-                       | None => Some aright end) with
+                        | None => Some aright end) with
   | None => (w, RValueError)
-  | Some vright =>
-      let w := if truthy vdown then
-                 (if 0 <? or0 vdown then wr w (fmt_d cg_cud [or0 vdown]) else wr w (fmt_d cg_cuu [- or0 vdown]))
-               else w in
-      let w := if truthy vright then
-                 (if 0 <? or0 vright then wr w (fmt_d cg_cuf [or0 vright]) else wr w (fmt_d cg_cub [- or0 vright]))
-               else w in
-      let w := if fx_marg fx && truthy vdown && w_mflag w then set_tr w None else w in
-      (match w_tr w with
-       | Some (tx, ty) => set_tracked w (tx + or0 vright) (ty + or0 vdown)
-       | None => w
-       end, ROk)
+  | Some vright => (move_core w vdown vright, ROk)
   end end.
 
 Definition pick_abs (arg : option Z) (old : Z) : Z :=
